@@ -66,3 +66,9 @@ contract("spec.harness.wav_index_shift", serves=["C16"], spec_module="spec.audio
          requires=["0 <= t", "0 <= m", "t <= 1e9", "m <= 1000000000",
                    "t * wav.frameRate - round(t * wav.frameRate) != 0.5", "round(t * wav.frameRate) - t * wav.frameRate != 0.5"],
          ensures=[("whole-shift", "result == m * wav.sampleWidth")])
+
+# duration equals sample count / frame rate
+contract(WAV + ".duration", serves=["C16"], spec_module="spec.audio",
+         configs={"rate": [8, 8000, 44100], "width": [1, 2, 4]},
+         inputs=lambda S, cfg: dict(self=wav_obj(S, cfg, frames=S.list("frames", "int"))),
+         ensures=[("samples-over-rate", "result * self.frameRate * self.sampleWidth == len(self.frames)")])
